@@ -35,6 +35,21 @@ struct Model {
     removed: BTreeMap<u64, (String, BTreeMap<String, String>)>,
 }
 
+/// same (ID, function, equality, metadata): the function is compared as a polynomial, so that a change that merely
+/// re-represents it (sorted terms, another message variant of the same function) is not an alarm
+fn same_constraint(a: &v1::Constraint, b: &v1::Constraint) -> bool {
+    use crate::model::poly::Poly;
+    let mut a2 = a.clone();
+    a2.function = b.function.clone();
+    if &a2 != b {
+        return false;
+    }
+    match (Poly::from_function(a.function.as_ref()), Poly::from_function(b.function.as_ref())) {
+        (Ok(x), Ok(y)) => x == y,
+        _ => a.function == b.function,
+    }
+}
+
 fn check_invariants(m: &Model, inst: &v1::Instance, step: usize, x: &mut Exec) {
     let mut seen: BTreeMap<u64, u32> = BTreeMap::new();
     for c in &inst.constraints {
@@ -42,7 +57,7 @@ fn check_invariants(m: &Model, inst: &v1::Instance, step: usize, x: &mut Exec) {
         match m.catalogue.get(&c.id) {
             None => x.violate("C14:conservation:unknown-constraint", format!("step {step}: active list contains constraint {} which the instance never had", c.id)),
             Some(orig) => {
-                if orig != c {
+                if !same_constraint(orig, c) {
                     x.violate("C14:conservation:constraint-changed", format!("step {step}: active constraint {} differs from its original (function, equality or metadata)", c.id));
                 }
             }
@@ -60,7 +75,7 @@ fn check_invariants(m: &Model, inst: &v1::Instance, step: usize, x: &mut Exec) {
         match m.catalogue.get(&c.id) {
             None => x.violate("C14:conservation:unknown-constraint", format!("step {step}: removed list contains constraint {} which the instance never had", c.id)),
             Some(orig) => {
-                if orig != c {
+                if !same_constraint(orig, c) {
                     x.violate("C14:conservation:constraint-changed", format!("step {step}: removed constraint {} differs from its original (function, equality or metadata)", c.id));
                 }
             }
